@@ -10,8 +10,9 @@
  * To keep the formula small the contract is evaluated in two steps: at the
  * call the stub copies the path bytes into a ghost log slot that belongs to
  * the tree node the path was generated for (the node is known because the
- * sqfs_tree_node_get_path contract records it; a path-taking call that is
- * not preceded by one is itself a violation), and the harness evaluates the
+ * sqfs_tree_node_get_path contract records which string it returned for
+ * which node; a path-taking call on any other pointer is itself a
+ * violation), and the harness evaluates the
  * predicates on every used slot when the walk returns (ENV_CHECK_LOG). Each
  * call is checked; only the place of the assert differs.
  *
@@ -31,33 +32,74 @@
 #include <errno.h>
 #include <stdio.h>
 #include <stdarg.h>
+#include <unistd.h>
+#include "rdsquashfs.h"
 #include "confined_spec.h"
 
-#define C06_PATHMAX ((NAMELEN + 1) * 3 + 2)
+#ifdef VERIF_REPLAY
+/* native replay: the contracts must not replace libc for the replay runtime
+ * itself, so they get private names; the real code below sees the macros */
+#define fprintf c06_fprintf
+#define printf c06_printf
+#define fputs c06_fputs
+#define perror c06_perror
+#define strerror c06_strerror
+#define mkdir c06_mkdir
+#define symlink c06_symlink
+#define mknod c06_mknod
+#define open c06_open
+#define close c06_close
+#define lsetxattr c06_lsetxattr
+#define utimensat c06_utimensat
+#define fchownat c06_fchownat
+#define fchmodat c06_fchmodat
+#define chdir c06_chdir
+#define qsort c06_qsort
+#endif
+
+/* longest string get_path can produce for the shape, plus NUL, plus one */
+#define C06_PATHMAX ((NAMELEN + 1) * (SHAPE_DEPTH > 0 ? SHAPE_DEPTH : 1) + 2)
 
 /* ghost state written by the contracts */
 static unsigned g_nsys;        /* path-taking system calls issued */
 static unsigned g_stderr_msgs; /* diagnostics written to stderr */
 static unsigned g_stdout_msgs;
-static int g_cur = -1;         /* node of the last get_path call */
-static char *g_cur_ptr;        /* ... and the string it returned */
+static char *g_ptr[NNODES];    /* live string get_path returned for node k */
+static int g_state[NNODES];    /* 1 = as returned, 2 = canonicalised */
 static bool g_used[NNODES];    /* a system call was issued for node k */
 static unsigned g_calls[NNODES];
 static char g_log[NNODES][C06_PATHMAX];
 static bool g_log_bad;         /* unterminated / foreign / changed path */
+
+static int env_node_of(const char *p)
+{
+	int k, found = -1;
+
+	if (p == NULL)
+		return -1;
+	for (k = 0; k < NNODES; ++k) {
+		if (g_ptr[k] == p)
+			found = k;
+	}
+	return found;
+}
 
 /* called by every path-taking stub; returns true if the path is "" */
 static bool env_log_path(const char *p)
 {
 	size_t i;
 	bool term = false, same = true;
-	int k = g_cur;
+	int k = env_node_of(p);
 
 	++g_nsys;
-	if (k < 0 || p != g_cur_ptr) {
+	if (k < 0) {
 		g_log_bad = true;
 		return false;
 	}
+#ifdef C06_CANON_CONTRACT
+	if (g_state[k] != 2)
+		g_log_bad = true;
+#endif
 	for (i = 0; i < C06_PATHMAX; ++i) {
 		if (g_used[k] && g_log[k][i] != p[i])
 			same = false;
@@ -87,20 +129,20 @@ static bool env_node_path_ok(int k)
 	if (k == 0) {
 		/* the root itself: only the refused empty path */
 		return g_log[0][0] == '\0' &&
-			!S_ISDIR(g_inodes[0].i.base.mode);
+			!S_ISDIR(TI(0)->i.base.mode);
 	}
 	for (a = k; a > 0; a = g_parent[a])
 		chain[n++] = a;
 	for (j = n - 1; j >= 0; --j) {
 		a = chain[j];
-		if (!spec_component_ok((const char *)g_nodes[a].name))
+		if (!spec_component_ok((const char *)TN(a)->name))
 			ok = false;
-		if (j > 0 && !S_ISDIR(g_inodes[a].i.base.mode))
+		if (j > 0 && !S_ISDIR(TI(a)->i.base.mode))
 			ok = false;
 		if (j < n - 1)
 			want[o++] = '/';
-		for (i = 0; g_nodes[a].name[i] != '\0'; ++i)
-			*(sqfs_u8 *)&want[o++] = g_nodes[a].name[i];
+		for (i = 0; TN(a)->name[i] != '\0'; ++i)
+			*(sqfs_u8 *)&want[o++] = TN(a)->name[i];
 	}
 	want[o] = '\0';
 	for (i = 0; i < C06_PATHMAX; ++i) {
@@ -112,6 +154,20 @@ static bool env_node_path_ok(int k)
 	return ok;
 }
 
+/* spec_confined on slot k; the row is copied to a local first (cbmc 6.11
+ * mis-reads through a pointer to a row of a static two-dimensional array
+ * when the offset is symbolic) */
+static bool env_slot_confined(int k)
+{
+	char tmp[C06_PATHMAX];
+	size_t i;
+
+	for (i = 0; i < C06_PATHMAX; ++i)
+		tmp[i] = g_log[k][i];
+	tmp[C06_PATHMAX - 1] = '\0';
+	return spec_confined(tmp);
+}
+
 /* evaluate the contract for everything that was logged */
 #define ENV_CHECK_LOG(pre_name)                                                \
 	do {                                                                   \
@@ -120,9 +176,9 @@ static bool env_node_path_ok(int k)
 		for (k_ = 0; k_ < NNODES; ++k_) {                              \
 			if (!g_used[k_] || g_log_bad)                          \
 				continue;                                      \
-			VERIF_ASSERT(spec_confined(g_log[k_]) ||               \
+			VERIF_ASSERT(env_slot_confined(k_) ||               \
 				     (k_ == 0 && g_log[0][0] == '\0' &&        \
-				      !S_ISDIR(g_inodes[0].i.base.mode)),      \
+				      !S_ISDIR(TI(0)->i.base.mode)),      \
 				     pre_name);                                \
 			VERIF_ASSERT(env_node_path_ok(k_),                     \
 				     "C06.prefix_is_dir");                     \
@@ -189,6 +245,14 @@ void sqfs_perror(const char *file, const char *action, int error_code)
 
 void sqfs_free(void *ptr)
 {
+	int k;
+
+	for (k = 0; k < NNODES; ++k) {
+		if (ptr != NULL && g_ptr[k] == (char *)ptr) {
+			g_ptr[k] = NULL;
+			g_state[k] = 0;
+		}
+	}
 	free(ptr);
 }
 #endif
